@@ -20,6 +20,7 @@ import (
 	"google.golang.org/grpc/credentials"
 
 	"github.com/theparanoids/ysshra/crypki"
+	"github.com/theparanoids/ysshra/tlsutils"
 	"github.com/theparanoids/ysshra/verifharness/lib/caserver"
 	"github.com/theparanoids/ysshra/verifharness/lib/ev"
 	"github.com/theparanoids/ysshra/verifharness/lib/gen"
@@ -129,6 +130,10 @@ func main() {
 		}
 		lwg.Add(1)
 		go func() { defer lwg.Done(); twoSigners(r, dir, ca1, ca2, clientCert, clientKey) }()
+		lwg.Add(1)
+		go func() { defer lwg.Done(); stagedCA(r, dir, ca1, clientCert, clientKey) }()
+		lwg.Add(1)
+		go func() { defer lwg.Done(); concurrentConstruction(r, dir, ca1, ca2, clientCert, clientKey) }()
 		ips := []string{"127.0.0.2", "127.0.0.3", "127.0.0.4"}
 		n := r.Pick(600, 6000)
 		for i := 0; i < n; i++ {
@@ -521,4 +526,135 @@ func judge(r *ev.Run, c *ev.Case, rec caseRec, bundle []string, clientCert, clie
 		r.Count("server identity "+v.Identity, 1)
 	}
 	r.Nontrivial(rec.Bundle + "|" + strings.Join(list, ",") + "|" + sig)
+}
+
+// stagedCA: a roll-over. The configured bundle lists the current CA and its successor, whose certificate becomes valid
+// a few seconds after the signer is built (as bundles are distributed ahead of time). Once the successor is valid, a
+// genuine server it issued is a server authenticated by the configured bundle: Sign reaches it. Before that moment a
+// server presenting the successor's certificates is not yet genuine (outcome not judged).
+func stagedCA(r *ev.Run, dir string, current *caserver.CA, clientCert, clientKey string) {
+	c := r.Case("staged-successor-ca", 0)
+	if c == nil {
+		return
+	}
+	start := time.Now()
+	from := start.Add(2 * time.Second).Truncate(time.Second).Add(time.Second) // certificates carry whole seconds
+	next := caserver.NewCAFrom("verif crypki CA (successor)", from)
+	sub := filepath.Join(dir, "staged")
+	os.Mkdir(sub, 0o700)
+	cur, nxt := filepath.Join(sub, "current.pem"), filepath.Join(sub, "successor.pem")
+	os.WriteFile(cur, current.PEM, 0o600)
+	os.WriteFile(nxt, next.PEM, 0o600)
+	ip := "127.0.1.79"
+	conf := &tls.Config{Certificates: []tls.Certificate{next.Issue(caserver.Leaf{CN: "crypki", IPs: []string{ip}, NotBefore: from})}, MinVersion: tls.VersionTLS12}
+	servers, port, err := caserver.StartGroup([]string{ip}, []*tls.Config{conf})
+	if err != nil {
+		r.Count("staged successor CA: cannot start server (skipped)", 1)
+		return
+	}
+	defer servers[0].Stop()
+	now64 := uint64(start.Unix())
+	text := string(ssh.MarshalAuthorizedKey(gen.MakeCert(gen.CertSpec{Key: gen.Pool()[0], KeyID: "staged", ValidAfter: now64 - 10, ValidBefore: now64 + 100})))
+	servers[0].Set(func(context.Context, *proto.SSHCertificateSigningRequest) (*proto.SSHKey, error) {
+		return &proto.SSHKey{Key: text}, nil
+	})
+	rec := map[string]any{"successor_valid_from": from.Format(time.RFC3339), "bundle": "current CA file + successor CA file"}
+	r.Eval(1)
+	r.Guard(c, "staged successor CA", rec, func() {
+		for vi, bundle := range [][]string{{cur, nxt}, {nxt, cur}} {
+			signer, err := crypki.NewSigner(crypki.SignerConfig{TLSClientKeyFile: clientKey, TLSClientCertFile: clientCert, TLSCACertFiles: bundle, CrypkiEndpoints: []string{ip}, CrypkiPort: uint(port), Retries: 1, PerTryTimeout: 10 * time.Second})
+			if err != nil {
+				r.Violation(c, "signer-construction-fails", err.Error(), rec)
+				return
+			}
+			if time.Now().After(from.Add(-200 * time.Millisecond)) {
+				r.Count("staged successor CA: the signer was built too late to be built before the roll-over (not judged)", 1)
+				return
+			}
+			defer func(s *crypki.Signer, vi int) {
+				if d := time.Until(from.Add(1500 * time.Millisecond)); d > 0 {
+					time.Sleep(d)
+				}
+				ctx, cancel := context.WithTimeout(context.Background(), 60*time.Second)
+				defer cancel()
+				certs, _, serr := s.Sign(ctx, &proto.SSHCertificateSigningRequest{KeyMeta: &proto.KeyMeta{Identifier: "x"}, Principals: []string{"a"}, PublicKey: "k", Validity: 60})
+				if serr != nil || len(certs) != 1 {
+					r.Violation(c, "sign-fails-although-a-genuine-endpoint-is-configured:successor-ca-staged-before-it-became-valid", fmt.Sprintf("bundle order %d: the server's CA is in the configured bundle and valid since %s (signer built %s before that); Sign returned certs=%d err=%v", vi, from.Format(time.RFC3339), from.Sub(start).Round(100*time.Millisecond), len(certs), serr), rec)
+					return
+				}
+				r.Count("signers built before the successor CA became valid reach its server afterwards", 1)
+				r.Nontrivial(fmt.Sprintf("staged-ca:%d", vi))
+			}(signer, vi)
+		}
+	})
+}
+
+// concurrentConstruction: several client configurations with different CA bundles are built at the same time (two
+// signers for two CA clusters, the CA client and the telemetry exporter, ...). Each one trusts exactly the CAs of ITS
+// bundle: a server certificate of its own CA verifies against its roots, one of the other bundle's CA does not —
+// whatever else was being built at that moment. Verification is done on the returned configuration's root pool, so
+// thousands of constructions can be looked at.
+func concurrentConstruction(r *ev.Run, dir string, caA, caB *caserver.CA, clientCert, clientKey string) {
+	c := r.Case("concurrent-construction", 0)
+	if c == nil {
+		return
+	}
+	sub := filepath.Join(dir, "concurrent")
+	os.Mkdir(sub, 0o700)
+	pa, pb := filepath.Join(sub, "a.pem"), filepath.Join(sub, "b.pem")
+	// bundles of different lengths, so that a mixed-up read cannot go unnoticed as a whole file
+	os.WriteFile(pa, append(append([]byte("# bundle A\n"), caA.PEM...), '\n'), 0o600)
+	os.WriteFile(pb, append(append(append([]byte("# bundle B, with a remark that makes it longer than the other one\n\n"), caB.PEM...), caB.PEM...), '\n'), 0o600)
+	leafA := caA.Issue(caserver.Leaf{CN: "crypki-a", IPs: []string{"127.0.0.2"}}).Leaf
+	leafB := caB.Issue(caserver.Leaf{CN: "crypki-b", IPs: []string{"127.0.0.2"}}).Leaf
+	rounds := r.Pick(300, 1500)
+	r.Eval(1)
+	r.Guard(c, "configurations built concurrently", nil, func() {
+		var wg sync.WaitGroup
+		var mu sync.Mutex
+		var bad []string
+		built := 0
+		for g := 0; g < 8; g++ {
+			wg.Add(1)
+			go func(g int) {
+				defer wg.Done()
+				own, other, bundle, name := leafA, leafB, pa, "A"
+				if g%2 == 1 {
+					own, other, bundle, name = leafB, leafA, pb, "B"
+				}
+				for k := 0; k < rounds; k++ {
+					cfg, err := tlsutils.TLSClientConfiguration(clientCert, clientKey, []string{bundle})
+					msg := ""
+					switch {
+					case err != nil:
+						msg = fmt.Sprintf("construction with bundle %s failed: %v", name, err)
+					case cfg.RootCAs == nil:
+						msg = "no root pool"
+					default:
+						if _, e := own.Verify(x509.VerifyOptions{Roots: cfg.RootCAs, KeyUsages: []x509.ExtKeyUsage{x509.ExtKeyUsageServerAuth}}); e != nil {
+							msg = fmt.Sprintf("a configuration built from bundle %s does not trust that bundle's CA: %v", name, e)
+						} else if _, e := other.Verify(x509.VerifyOptions{Roots: cfg.RootCAs, KeyUsages: []x509.ExtKeyUsage{x509.ExtKeyUsageServerAuth}}); e == nil {
+							msg = fmt.Sprintf("a configuration built from bundle %s trusts the CA of the other bundle", name)
+						}
+					}
+					mu.Lock()
+					built++
+					if msg != "" {
+						bad = append(bad, fmt.Sprintf("goroutine %d round %d: %s", g, k, msg))
+					}
+					mu.Unlock()
+					if msg != "" {
+						return
+					}
+				}
+			}(g)
+		}
+		wg.Wait()
+		if len(bad) > 0 {
+			r.Violation(c, "configuration-trusts-other-than-its-bundle:built-concurrently", fmt.Sprintf("%s (%d configurations built by 8 goroutines with two different bundles)", bad[0], built), bad)
+			return
+		}
+		r.Count("client configurations built concurrently from two bundles, each trusting exactly its own", built)
+		r.Nontrivial("concurrent-construction")
+	})
 }
